@@ -6,6 +6,7 @@ import (
 	"bufio"
 	"bytes"
 	"fmt"
+	"io"
 	"net"
 	"net/http"
 	"strconv"
@@ -71,7 +72,7 @@ func init() {
 	Register(&Prop{
 		ID: "C10",
 		Rule: "server: histories of 1..5 pipelined requests (HTTP/1.0|1.1, Connection token lists in several cases/positions, one or two Connection lines, handler asking for close through ctx.SetConnectionClose / Response.Header.Set / a TimeoutErrorWithResponse response, or leaving a streamed request body unread) x DisableKeepalive x MaxRequestsPerConn 0..3, " +
-			"followed by a sentinel request that is served iff the connection is still open; client: HostClient doing two sequential requests against a scripted in-memory server whose first response carries a Connection variant; " +
+			"followed by a sentinel request that is served iff the connection is still open; client: HostClient doing two sequential requests against a scripted in-memory server whose first response carries a Connection variant (buffered, streamed, and streamed with the caller deleting the Connection header before it closes the stream); " +
 			"non-trivial = some request or response carries a Connection field or a limit is set; distinct = distinct input",
 		Parallel:    true,
 		Assumptions: []string{"CloseOnShutdown during shutdown is part of the model (respClose) but is not exercised by this harness (see C15)"},
@@ -210,6 +211,7 @@ func init() {
 			case "client":
 				// a[0] = Connection value of the first response ("-" = none); a[1] = "1" when the first response is HTTP/1.0
 				cv := string(a[0])
+				chunkedResp := len(a) > 2 && string(a[2]) == "ch"
 				ln := fasthttputil.NewInmemoryListener()
 				var mu sync.Mutex
 				perConn := []int{}
@@ -244,12 +246,22 @@ func init() {
 								if first && cv != "-" {
 									hdr = "Connection: " + cv + "\r\n"
 								}
-								fmt.Fprintf(c, "HTTP/1.1 200 OK\r\nContent-Length: 2\r\n%s\r\nok", hdr)
+								if chunkedResp {
+									fmt.Fprintf(c, "HTTP/1.1 200 OK\r\n%sTransfer-Encoding: chunked\r\n\r\n2\r\nok\r\n0\r\n\r\n", hdr)
+								} else {
+									fmt.Fprintf(c, "HTTP/1.1 200 OK\r\nContent-Length: 2\r\n%s\r\nok", hdr)
+								}
 							}
 						}(c, id)
 					}
 				}()
-				hc := &fasthttp.HostClient{Addr: "x", Dial: func(string) (net.Conn, error) { return ln.Dial() }, MaxIdemponentCallAttempts: 1}
+				// a[1] (optional): "s" = streamed response bodies, read to the end and closed; "d" = the same, and the caller
+				// (a relay) deletes the hop-by-hop Connection header before it closes the stream
+				mode := ""
+				if len(a) > 1 {
+					mode = string(a[1])
+				}
+				hc := &fasthttp.HostClient{Addr: "x", Dial: func(string) (net.Conn, error) { return ln.Dial() }, MaxIdemponentCallAttempts: 1, StreamResponseBody: mode != ""}
 				var errs []string
 				for _, p := range []string{"/first", "/second"} {
 					req := fasthttp.AcquireRequest()
@@ -257,6 +269,14 @@ func init() {
 					req.SetRequestURI("http://x" + p)
 					if err := hc.DoTimeout(req, resp, 15*time.Second); err != nil {
 						errs = append(errs, err.Error())
+					} else if mode != "" {
+						if bs := resp.BodyStream(); bs != nil {
+							io.Copy(io.Discard, bs)
+						}
+						if mode == "d" {
+							resp.Header.Del("Connection")
+						}
+						resp.CloseBodyStream()
 					}
 					fasthttp.ReleaseRequest(req)
 					fasthttp.ReleaseResponse(resp)
@@ -269,11 +289,11 @@ func init() {
 				mu.Unlock()
 				saidClose := cv != "-" && tokenIn([]string{cv}, "close")
 				impl := fmt.Sprintf("conns=%v errs=%v", counts, errs)
-				return &Case{Impl: impl, Nontrivial: cv != "-", Tags: []string{"client"},
+				return &Case{Impl: impl, Nontrivial: cv != "-", Tags: []string{"client", "client-mode=" + mode},
 					Judge: func([]string) Verdict {
 						reused := len(counts) >= 1 && counts[0] > 1
 						if saidClose && reused {
-							return Verdict{VSpec, "client-reused-closed-conn", fmt.Sprintf("first response said Connection: %q but the client sent the next request on the same connection (%s)", cv, impl)}
+							return Verdict{VSpec, "client-reused-closed-conn", fmt.Sprintf("first response said Connection: %q but the client (mode %q: s = streamed body, d = caller deletes the Connection header before closing the stream) sent the next request on the same connection (%s)", cv, mode, impl)}
 						}
 						if len(errs) > 0 {
 							return Verdict{VSpec, "client-error", fmt.Sprintf("Connection: %q: %s", cv, impl)}
@@ -323,7 +343,14 @@ func init() {
 				if cv == "" {
 					cv = "-"
 				}
-				emit("client", B(cv))
+				switch r.Intn(3) {
+				case 0:
+					emit("client", B(cv))
+				case 1:
+					emit("client", B(cv), B("s"), B(r.Pick([]string{"cl", "ch"})))
+				default:
+					emit("client", B(cv), B("d"), B(r.Pick([]string{"cl", "ch"})))
+				}
 			}
 		},
 	})
